@@ -9,9 +9,10 @@ def showFmt (u : Int) : String :=
   | .err _ => "err"
   | .panic _ => "panic"
 
-def mult (k : String) : Option Nat :=
-  if k == "s" then some 1 else if k == "m" then some 60 else if k == "h" then some 3600
-  else if k == "d" then some 86400 else if k == "w" then some 604800 else none
+/-- the request's unit letter names the `Duration` constructor -/
+def ctor (k : String) : Option String :=
+  if k == "s" then some "seconds" else if k == "m" then some "minutes" else if k == "h" then some "hours"
+  else if k == "d" then some "days" else if k == "w" then some "weeks" else none
 
 def handle : List String → String
   | ["parse", h] =>
@@ -29,15 +30,18 @@ def handle : List String → String
       | .panic _ => "panic"
     | none => "bad-request"
   | [op, t, k, n] =>
-    match t.toInt?, mult k, n.toNat? with
-    | some t, some m, some n =>
+    match t.toInt?, ctor k, n.toNat? with
+    | some t, some c, some n =>
       match fromUnix t with
       | .ok t =>
-        let r := if op == "add" then checkedAdd t (n * m) else if op == "sub" then checkedSub t (n * m) else none
+        let r := if op == "add" then checkedAddDur t c n else if op == "sub" then checkedSubDur t c n else none
         if op != "add" && op != "sub" then "bad-request" else
         match r with
-        | some v => s!"some:{v}"
-        | none => "none"
+        | some (.ok (some v)) => s!"some:{v}"
+        | some (.ok none) => "none"
+        | some (.panic _) => "panic"
+        | some (.err _) => "err"
+        | none => "bad-request"
       | _ => "bad-request"
     | _, _, _ => "bad-request"
   | ["cmp", a, b] =>
